@@ -159,8 +159,9 @@ Section CLICompose1.
   Proof.
     intros Hmd5 cwd args par files nvol fs st' H Hc nv Hnames Hjoin Hlens Hdisj Hstale cwd2 vargs all Hv.
     pose proof (cli_create1_zero_means_created _ _ _ _ _ _ _ H Hc) as HC.
-    destruct (par1_create_then_verify_clean md5 Hmd5 par files nvol fs st' all HC Hnames Hjoin Hlens Hdisj Hstale)
+    destruct (par1_create_then_verify_clean md5 Hmd5 par files nvol fs st' all HC Hnames Hjoin Hlens)
       as (c & st2 & HV & C1 & C2 & C3 & C4).
+    { intros k Hk. destruct (Hstale k Hk) as [S1 S2]. split; [exact S2|]. intros b Hb. rewrite S1 in Hb. discriminate Hb. }
     exists c, st2. split; [exact HV|]. split; [|repeat split; assumption].
     rewrite (cli_run_verify1 md5 cwd2 _ _ _ _ Hv), HV, C1. reflexivity.
   Qed.
@@ -277,10 +278,19 @@ Module Compose1Examples.
     fst (cli_run toy_hash [] [s "v"; s "a.par"] (io_init (io_fs (snd r)) [])) = 1.
   Proof. split; [vm_compute; reflexivity|split; [vm_compute; discriminate|vm_compute; reflexivity]]. Qed.
 
-  (* 2. The premise "no stale volume" is needed: an old a.p03 of ANOTHER set (one that parses) makes the verify
-     line exit 7; an unparsable file there is ignored (Par1RoundTrip.par1_stale_unparsable_volume_ignored) *)
-  Example cli_create1_then_verify1_stale_refuted :
+  (* 2. A stale volume of ANOTHER set beside a fresh set is unusable, not fatal (after the fix of the PAR1 loader): an
+     old a.p03 of another set (one that parses) is skipped and the verify line exits 0 - before the fix it exited 7
+     (Par1RoundTrip.par1_stale_foreign_volume_ignored; an unparsable file there likewise:
+     Par1RoundTrip.par1_stale_unparsable_volume_ignored).  What the premise on the paths beyond nv still has to
+     exclude is a DIRECTORY there: the verify line exits 7 *)
+  Example cli_create1_then_verify1_stale_ignored :
     let fs0 := (ex_fs0 ++ [(volume_path ex_ix 3, ex_stale)])%list in
+    let r := cli_run toy_hash [] ex_cargs (io_init fs0 []) in
+    fst r = 0 /\ fst (cli_run toy_hash [] [s "v"; s "a.par"] (io_init (io_fs (snd r)) [])) = 0.
+  Proof. split; vm_compute; reflexivity. Qed.
+
+  Example cli_create1_then_verify1_dir_refuted :
+    let fs0 := (ex_fs0 ++ [(volume_path ex_ix 3 ++ s "/z", [9])])%list in
     let r := cli_run toy_hash [] ex_cargs (io_init fs0 []) in
     fst r = 0 /\ fst (cli_run toy_hash [] [s "v"; s "a.par"] (io_init (io_fs (snd r)) [])) = 7.
   Proof. split; vm_compute; reflexivity. Qed.
